@@ -213,8 +213,11 @@ def lemma_differential(run: Run, live: Live, world, lemma_id: str, fname: str, c
             scalardiff.dyn_env("x", x, env, class_ids, [a for a in cp.UNRELATED if isinstance(a, tuple) and a[0] == "tuple_of"])
             if type(x).__name__ in cp.FIELDS:
                 obj_env("x", x, env)
-        preds = {p[:2] for p in scalardiff.predicted(rep.paths_full, env) if p[0] != "unknown"}
+        allp = scalardiff.predicted(rep.paths_full, env)
+        preds = {p[:2] for p in allp if p[0] != "unknown"}
         nat = run_native(ns, fname, args)
+        if not preds and allp:
+            continue  # the only candidate paths depend on an uninterpreted function of the inputs: the encoding predicts nothing to compare
         n += 1
         if len(preds) != 1 or next(iter(preds)) != tuple(nat[:2]):
             run.crash(f"encoder disagrees with CPython for lemma {lemma_id} on {[repr(a) for a in args]}: predicted {sorted(map(str, preds))}, real {nat}")
